@@ -55,6 +55,11 @@ pub struct ScaleCase {
     /// library's log arguments are evaluated when the level admits them
     #[serde(default)]
     pub log: u8,
+    /// ring shapes: one extra object without adoptions of its own (a leaf) is
+    /// adopted by every ring member (an object with many distinct adopters and
+    /// no forward link)
+    #[serde(default)]
+    pub leaf: bool,
 }
 
 fn max_n(tier: Tier, shape: u8) -> f64 {
@@ -77,7 +82,8 @@ const CAP: usize = 8;
 
 /// Returns (objects, distinct recorded (owner,target) pairs, recorded adoptions).
 unsafe fn build(c: &ScaleCase, n: usize) -> (Box<Rc<Big>>, usize, usize) {
-    let mk = || Rc::new(Big { next: RefCell::new(Vec::with_capacity(CAP)) });
+    // one spare slot beyond CAP: reserved for the shared leaf (`leaf`)
+    let mk = || Rc::new(Big { next: RefCell::new(Vec::with_capacity(CAP + 1)) });
     // boxed so that its address stays valid when it is returned
     let h0: Box<Rc<Big>> = Box::new(mk());
     // slot[i] points at a handle to node i that lives inside another node's Vec
@@ -215,6 +221,21 @@ unsafe fn build(c: &ScaleCase, n: usize) -> (Box<Rc<Big>>, usize, usize) {
                 adoptions += 1;
             }
         }
+        if c.leaf {
+            let leaf = mk();
+            for i in 0..n {
+                let h: &Rc<Big> = &*slot[i];
+                if h.next.borrow().len() > CAP {
+                    continue;
+                }
+                let cl = Rc::clone(&leaf);
+                Rc::adopt_unchecked(h, &cl);
+                h.next.borrow_mut().push(cl);
+                adoptions += 1;
+            }
+            pairs.insert((usize::MAX, usize::MAX));
+            drop(leaf);
+        }
     }
     (h0, pairs.len(), adoptions)
 }
@@ -234,7 +255,7 @@ pub fn scaleprobe_cmd(args: &[String]) -> i32 {
         drop(*h0);
         let d = DESTROYED.load(Ordering::Relaxed);
         println!("destroyed={} pairs={} adoptions={}", d, pairs, adoptions);
-        let expect = if c.shape % 7 == 5 { 2 } else { n };
+        let expect = if c.shape % 7 == 5 { 2 } else { n + usize::from(c.leaf && matches!(c.shape % 7, 0 | 1 | 3)) };
         if d != expect {
             return 3;
         }
@@ -359,8 +380,8 @@ pub const L_HUGE: u32 = 5;
 impl Kind for ScaleKind {
     type Case = ScaleCase;
     fn strategy(_id: &str, _tier: Tier, _variant: u64) -> BoxedStrategy<ScaleCase> {
-        (0u8..7, any::<u16>(), vec((any::<u32>(), any::<u32>()), 0..48), vec(any::<u32>(), 0..16), any::<bool>(), 0u8..4, 0u8..16)
-            .prop_map(|(shape, size, chords, selfs, parallel, lb, lg)| ScaleCase { shape, size, chords, selfs, parallel, probe: None, loopbacks: lb == 0, log: if lg < 8 { lg } else { 0 } })
+        (0u8..7, any::<u16>(), vec((any::<u32>(), any::<u32>()), 0..48), vec(any::<u32>(), 0..16), any::<bool>(), 0u8..4, 0u8..16, 0u8..4)
+            .prop_map(|(shape, size, chords, selfs, parallel, lb, lg, lf)| ScaleCase { shape, size, chords, selfs, parallel, probe: None, loopbacks: lb == 0, log: if lg < 8 { lg } else { 0 }, leaf: lf == 0 })
             .boxed()
     }
     fn run(_id: &str, tier: Tier, c: &ScaleCase) -> CaseResult {
@@ -402,7 +423,7 @@ impl Kind for ScaleKind {
             sh.counters[24] = cn[1] as u64;
             sh.counters[25] = cn[2] as u64;
             sh.counters[26] = cn[3] as u64;
-            let expect = if c.shape % 7 == 5 { 2 } else { n };
+            let expect = if c.shape % 7 == 5 { 2 } else { n + usize::from(c.leaf && matches!(c.shape % 7, 0 | 1 | 3)) };
             if d != expect {
                 violate(View::Scale, &format!("orphaned group of {} objects: only {} were destroyed by the final drop", expect, d));
             }
